@@ -211,6 +211,15 @@ def loopBody : RStm := .seq (.replace 0 (.var 0) (.len 1) 2) (.addAssign 0 (.len
 def canonReplaceAll : RStm :=
   .seq (.ite (.not (.empty 1)) (.seq (.decl 0 (.lit 0)) (.while loopCond loopBody)) .skip) (.ret 0)
 
+/-- the same loop after an early return (a harmless rewrite the proofs accept as well):
+
+        if (from.empty()) return s;
+        std::size_t start(0);
+        while ((start = s.find(from, start)) != std::string::npos) { … }
+        return s;                                                                          -/
+def canonReplaceAll2 : RStm :=
+  .seq (.ite (.empty 1) (.ret 0) .skip) (.seq (.decl 0 (.lit 0)) (.seq (.while loopCond loopBody) (.ret 0)))
+
 /-! ### the text between the replaced occurrences -/
 
 /-- the segments of `s` between the occurrences of `frm` that replace_all replaces (leftmost
